@@ -94,14 +94,41 @@ impl Monitor for C09 {
         vec![("trainings", tier.pick(6000, 120_000))]
     }
     fn rule(&self) -> &'static str {
-        "case = random layer sequence (dense / convolution / deconvolution / max-pool / feedback block, 0..4 dense layers at varying positions, dense output layer) with dropout (rate from {0.1,0.5,0.9,1.0}) on a random non-empty subset of the dropout-capable layers, 4..12 training and 1..70 validation samples, 1..4 epochs, batch 1..5, SGD; with and (every 4th case) without validation data; every 8th case uses tolerance 1 so that training stops early after epoch 2; after all checks a second learn() call is made on the same network and checked the same way. (1) hooked state: every forward pass of a validation sample inside learn() must see all training flags false, every forward pass of a training sample all flags of dropout-capable layers true, flags all false after learn() returns and before/during/after stand-alone validate()/predict(). (2) differential: a twin network without dropout receives the trained weights; the validation loss/accuracy learn() reported for its last epoch must equal validate() on the twin bit-for-bit, predict() must agree on probe inputs, and this is repeated for every prefix e <= E by deterministic re-training (prefix losses must coincide). (3) validate() right after learn() equals the last reported epoch. A case is non-trivial when the fixed-seed mask really changes the training forward pass (checked by comparing a training-mode forward with the twin). Distinct = distinct configuration descriptors."
+        "case = random layer sequence (dense / convolution / deconvolution / max-pool / feedback block, 0..4 dense layers at varying positions, dense output layer; every third network additionally gets a skip connection and / or a loop connection over one layer) with dropout (rate from {0.1,0.5,0.9,1.0}) on a random non-empty subset of the dropout-capable layers, 4..12 training and 1..70 validation samples, 1..4 epochs, batch 1..5, SGD; with and (every 4th case) without validation data; every 8th case uses tolerance 1 so that training stops early after epoch 2; after all checks a second learn() call is made on the same network and checked the same way. (1) hooked state: every forward pass of a validation sample inside learn() must see all training flags false, every forward pass of a training sample all flags of dropout-capable layers true, flags all false after learn() returns and before/during/after stand-alone validate()/predict(). (2) differential: a twin network without dropout receives the trained weights; the validation loss/accuracy learn() reported for its last epoch must equal validate() on the twin bit-for-bit, predict() must agree on probe inputs, and this is repeated for every prefix e <= E by deterministic re-training (prefix losses must coincide). (3) validate() right after learn() equals the last reported epoch. A case is non-trivial when the fixed-seed mask really changes the training forward pass (checked by comparing a training-mode forward with the twin). Distinct = distinct configuration descriptors."
     }
     fn assumptions(&self) -> Vec<&'static str> {
         vec!["the library's dropout mask is a deterministic function of the tensor size (generator re-seeded with a constant), which makes re-training prefixes reproducible", "bit-for-bit equality is demanded because the statement is an identity (same weights, same code path, dropout off)"]
     }
     fn run(&self, gen: &str, seed: u64, idx: u64, _tier: Tier) -> Out {
         let mut rng = Rng::stream(seed, gen, idx);
-        let base = dropout_net(&mut rng);
+        let mut base = dropout_net(&mut rng);
+        // every third network: a skip connection and / or a loop connection (dropout must stay
+        // out of prediction and validation whatever else the architecture contains)
+        let mut structure = String::new();
+        if idx % 3 == 1 {
+            if let Ok(sh) = base.shapes() {
+                let plain = |l: &LCfg| !matches!(l, LCfg::Feedback { .. });
+                let nl = base.layers.len();
+                let skip_c: Vec<(usize, usize)> = (0..nl).flat_map(|a| (a + 1..nl).map(move |b| (a, b))).filter(|(a, b)| sh[*a].0.count() == sh[*b].0.count() && plain(&base.layers[*a]) && plain(&base.layers[*b])).collect();
+                let loop_c: Vec<usize> = (0..nl.saturating_sub(1)).filter(|b| sh[*b].0 == sh[*b].1 && !sh[*b].2 && plain(&base.layers[*b]) && !matches!(base.layers[*b], LCfg::Pool { .. })).collect();
+                let mut trial = base.clone();
+                if !skip_c.is_empty() && rng.chance(0.7) {
+                    trial.skips = vec![*rng.pick(&skip_c)];
+                    trial.skipacc = *rng.pick(&[Acc::Add, Acc::Mean]);
+                }
+                if !loop_c.is_empty() && rng.chance(0.6) {
+                    let b = *rng.pick(&loop_c);
+                    if trial.skips.iter().all(|(_, t)| *t != b) {
+                        trial.loops = vec![(b, b, rng.range(1, 2), rng.bool())];
+                        trial.loopacc = *rng.pick(&[Acc::Add, Acc::Mean]);
+                    }
+                }
+                if (!trial.skips.is_empty() || !trial.loops.is_empty()) && trial.shapes().is_ok() && build(&trial, None).is_ok() {
+                    structure = format!("{}{}", if trial.skips.is_empty() { "" } else { "skip " }, if trial.loops.is_empty() { "" } else { "loop" });
+                    base = trial;
+                }
+            }
+        }
         let mut cfg = base.clone();
         // dropout on a random non-empty subset of capable layers
         let mut placed = Vec::new();
@@ -143,6 +170,10 @@ impl Monitor for C09 {
         let dense_positions: Vec<usize> = cfg.layers.iter().enumerate().filter(|(_, l)| matches!(l, LCfg::Dense { .. })).map(|(i, _)| i).collect();
         let desc = format!("{} | dropout at {:?} | E{} B{} train{} val{}", cfg.describe(), placed, epochs, batch, n_train, if with_val { n_val } else { 0 });
         let mut out = Out::new(desc.clone());
+        if !structure.is_empty() {
+            out.count("networks_with_a_skip_or_loop_connection", 1);
+            out.cover("extra_structure", structure.trim().to_string());
+        }
         out.cover("dense_layers_before_the_first_dropout_layer", format!("{}", dense_positions.iter().filter(|p| placed.first().map(|(i, _)| **p < *i).unwrap_or(false)).count()));
         out.cover("number_of_dense_layers", dense_positions.len().to_string());
         out.cover("architectures", cfg.architecture());
